@@ -3,13 +3,13 @@
 # Confirms a seeded change in its scratch worktree /tmp/mut/<Cxx>: suite passes with it,
 # demo passes without it and fails with it.  Prints a JSON line for meta.json.
 ID=$1; M=$2; shift 2; EXTRA="$@"
-W=/tmp/mut/$ID; O=/tmp/mut/$ID.out/$M
+R=${MUTROOT:-/tmp/mut}; W=$R/$ID; O=$R/$ID.out/$M
 cd $W || exit 9
 git checkout -q -- . ; 
 build() { cmake -G Ninja -S $W -B $W/_build -DCMAKE_BUILD_TYPE=Release >/dev/null 2>&1 && cmake --build $W/_build -j8 >/dev/null 2>&1; }
 demo() { if [ -f $O/demo.sh ]; then (cd $O && bash ./demo.sh $W >/dev/null 2>&1); return $?; fi
-  gcc -w -O1 -I$W/include -I$W/src $EXTRA $O/demo.c $W/_build/src/libbee2_static.a -lpthread -lm -o /tmp/mut/$ID.demo 2>/tmp/mut/$ID.demo.err || return 99
-  timeout 600 /tmp/mut/$ID.demo >/dev/null 2>&1; }
+  gcc -w -O1 -I$W/include -I$W/src $EXTRA $O/demo.c $W/_build/src/libbee2_static.a -lpthread -lm -o $R/$ID.demo 2>$R/$ID.demo.err || return 99
+  timeout 600 $R/$ID.demo >/dev/null 2>&1; }
 build || { echo "orig build failed"; exit 8; }
 demo; D0=$?
 git apply $O/patch.diff || { echo "patch does not apply"; exit 7; }
